@@ -339,6 +339,8 @@ def phys_rows_from_posterior(points, n_dim, as_dict_return):
         return np.stack([np.asarray(points[k], dtype=np.float64)
                          for k in keys], axis=-1)
     points = np.asarray(points)
+    if points.size == 0:
+        return np.zeros((0, n_dim), dtype=np.float64)
     if points.dtype == object:      # array of dicts (scalar fn_dict prior)
         return np.array([[np.float64(d[k]) for k in keys] for d in points],
                         dtype=np.float64).reshape(len(points), n_dim)
